@@ -645,3 +645,46 @@ def run_ref_instance_case(si, custom):
             again = False
         outcomes.append((strict, o.has_custom, again))
     return outcomes[0] == outcomes[1] == (not custom, custom, not custom)
+
+
+# ---- the same extra property, given as a keyword or through custom_properties, next to a toplevel-property-extension (registered or not)
+def extras_next_to_toplevel_extension(reg: bool, via: int, genuinely_custom: bool, host: int) -> bool:
+    """
+    pre: 0 <= via <= 2 and 0 <= host <= 1
+    post: _
+    """
+    reg, via, genuinely_custom, host = pickb(reg), pick(via, 3), pickb(genuinely_custom), pick(host, 2)
+    with Native():
+        ok = run_extras_case(reg, via, genuinely_custom, host)
+    V.reached()
+    return ok
+
+
+def run_extras_case(reg, via, genuinely_custom, host):
+    """flag <=> strict re-parse refused, whichever way the extra arrived.  With a REGISTERED extension its property (rank) is not custom and any
+    other extra is; with an UNREGISTERED one every extra counts as the extension's"""
+    _fixture_r()
+    ext = EXT_R if reg else TLE
+    kw = dict(name="x") if host == 0 else dict(name="f")
+    cls = stix2.v21.Identity if host == 0 else stix2.v21.File
+    extras = {"rank": 3}
+    if genuinely_custom:
+        extras["x_other"] = "v"
+    base = dict(kw, extensions={ext: {"extension_type": "toplevel-property-extension"}})
+    try:
+        if via == 0:
+            o = cls(allow_custom=True, **dict(base, **extras))
+        elif via == 1:
+            o = cls(custom_properties=dict(extras), **base)
+        else:
+            first = dict(list(extras.items())[:1])
+            o = cls(allow_custom=True, custom_properties={k: v for k, v in extras.items() if k not in first}, **dict(base, **first))
+    except (STIXError, ValueError, TypeError):
+        return False
+    try:
+        stix2.parse(json.loads(o.serialize()), allow_custom=False, version="2.1")
+        again = True
+    except (STIXError, ValueError, TypeError):
+        again = False
+    expect_custom = reg and genuinely_custom
+    return o.has_custom == expect_custom and again == (not expect_custom) and all(k in o for k in extras)
